@@ -44,6 +44,9 @@ func apiAsk(api *env.API, entry string, cs []*Case, aggs []env.Agg) []string {
 	switch entry {
 	case "api-complex-search":
 		req := &seqproxyapi.ComplexSearchRequest{Query: q, Aggs: aq, Size: 10, Order: seqproxyapi.Order_ORDER_DESC, WithTotal: true}
+		if orderOf(c.N+len(cs)) == "asc" {
+			req.Order = seqproxyapi.Order_ORDER_ASC
+		}
 		if c.Q.Hist > 0 {
 			req.Hist = &seqproxyapi.HistQuery{Interval: fmt.Sprintf("%dms", c.Q.Hist)}
 		}
